@@ -20,7 +20,8 @@ man = {
          "kind_free_text": "hypothesis-generated schema+operations+config -> ariadne_codegen.main.client in a forked child -> import -> drive through httpx.MockTransport against a graphql-core reference server"},
         {"name": "baseclient", "path": "vf/baseclient.py", "serves_properties": ["C11","C12","C13"],
          "kind_free_text": "the four bundled base clients driven directly with generated variables / responses / frame scripts"},
-        {"name": "cli", "path": "vf/cli.py", "serves_properties": ["C10","C17","C19"],
+        {"name": "schemagen", "path": "vf/props/c16.py", "serves_properties": ["C16"], "kind_free_text": "ariadne_codegen.main.graphql_schema on generated decorated schemas, generated module executed with runpy"},
+        {"name": "cli", "path": "vf/props/c17.py", "serves_properties": ["C10","C17","C19"],
          "kind_free_text": "subprocess / CliRunner runs of the command with generated projects, hash seeds, histories"},
     ],
     "checks": [],
